@@ -125,21 +125,22 @@ HARNESS(h_split)
     unsigned occ = 0;
     for (unsigned i = 0; i + SEPLEN <= jn; ++i) { bool m_ = true; for (unsigned k = 0; k < SEPLEN; ++k) if (joined[i + k] != sep[k]) m_ = false; if (m_) ++occ; }
     ASSUME(occ == NPARTS - 1);
-    std::vector<std::string> out;
+    // the split(std::vector<std::string>* into, ...) overloads with a pre-reserved vector: std::vector reallocation (environment code) stays off the path
+    std::vector<std::string> out; out.reserve(NPARTS + 1);
 #if SEPLEN == 1
-    out = tlx::split(sep[0], tlx::string_view(joined, (size_t)jn));
+    tlx::split(&out, sep[0], tlx::string_view(joined, (size_t)jn));
 #else
-    out = tlx::split(tlx::string_view(sep, (size_t)SEPLEN), tlx::string_view(joined, (size_t)jn));
+    tlx::split(&out, tlx::string_view(sep, (size_t)SEPLEN), tlx::string_view(joined, (size_t)jn));
 #endif
     CHECK(out.size() == NPARTS, "split(sep, join(sep, parts)) returns as many fields as parts");
     if (out.size() == NPARTS) for (unsigned p = 0; p < NPARTS; ++p) CHECK(eq(out[p], part[p], plen[p]), "split(sep, join(sep, parts)) == parts");
     // limit semantics: at most `limit` fields, the last one holds the unsplit rest
     unsigned limit = 1 + nondet_below(NPARTS);
-    std::vector<std::string> lim;
+    std::vector<std::string> lim; lim.reserve(NPARTS + 1);
 #if SEPLEN == 1
-    lim = tlx::split(sep[0], tlx::string_view(joined, (size_t)jn), (std::string::size_type)limit);
+    tlx::split(&lim, sep[0], tlx::string_view(joined, (size_t)jn), (std::string::size_type)limit);
 #else
-    lim = tlx::split(tlx::string_view(sep, (size_t)SEPLEN), tlx::string_view(joined, (size_t)jn), (std::string::size_type)limit);
+    tlx::split(&lim, tlx::string_view(sep, (size_t)SEPLEN), tlx::string_view(joined, (size_t)jn), (std::string::size_type)limit);
 #endif
     CHECK(lim.size() == limit, "split with limit returns exactly limit fields when there are at least that many");
     if (lim.size() == limit) { unsigned off = 0;
